@@ -9,6 +9,12 @@ NOT_APPLICABLE = {
     'C20': 'every clause is a real-valued inequality or monotonicity fact through erfc/exp/Fourier sums; bit-exactly false by rounding and undecided with tolerance on every installed back end (probe: one-product envelope undecided after 600 s); the decidable part (documented expressions) is C05',
 }
 PENDING = 'contracts planned in DESIGN section 6 not completed yet; not claimed until the check is green on the unchanged tree'
+NOT_REACHED = {
+    'C10': 'segment/section/feature model inheritance lives in SubductingPlate/Fault::parse_entries and the interpolation between sections in their properties functions; the latter translate mechanically but the DFCC query does not finish within 900 s (DESIGN 15), the former were not brought under contract - not claimed rather than decided by another technique',
+    'C13': 'totality/finiteness at degenerate locations is a statement about the whole query path including the 650-line distance routine and the slab/fault evaluators that DFCC does not finish on (DESIGN 15); the CBMC safety obligations (bounds, pointers, overflow, division) of every function that IS under contract are part of the other checks, no separate claim is made',
+    'C17': 'gwb-dat main (500 lines of iostream parsing and printing) was not brought under contract; the candidates of DESIGN 7.1 for it stay candidates',
+    'C18': 'gwb-grid main (mesh construction, vtu output) was not brought under contract; only its ThreadPool::parallel_for is (C14)',
+}
 
 
 def main():
@@ -18,7 +24,7 @@ def main():
     for pid in ids:
         path = os.path.join(VERIF, 'props', pid + '.py')
         if pid in NOT_APPLICABLE or not os.path.exists(path):
-            na.append(dict(property_id=pid, reason=NOT_APPLICABLE.get(pid, PENDING)))
+            na.append(dict(property_id=pid, reason=NOT_APPLICABLE.get(pid, NOT_REACHED.get(pid, PENDING))))
             continue
         spec = importlib.util.spec_from_file_location('p', path)
         m = importlib.util.module_from_spec(spec)
@@ -40,7 +46,7 @@ def main():
     man = dict(
         version=1,
         setup_cmd='./setup.sh',
-        hooks=dict(guard='GWB_VERIF', enable='-DGWB_VERIF (CMAKE_CXX_FLAGS) - only the native replay oracle of C07 uses it; no proof depends on a hook',
+        hooks=dict(guard='GWB_VERIF', enable='-DGWB_VERIF (CMAKE_CXX_FLAGS) - reserved guard name; no hook was added to /repo and no check depends on one',
                    baseline_off_cmd='cmake --build /repo/_build -j16 && ctest --test-dir /repo/_build -j8 --timeout 900',
                    source_commits=[], add_only=True),
         engines=[dict(name='cbmc-contracts', path='check', serves_properties=[c['property_id'] for c in checks],
